@@ -44,7 +44,9 @@ class RecMonitor:
                 snap[kind][n] = np.array(vec._abs_get_val(n, flat=False), copy=True)
         # discrete variables straight from the owning components (incl. _auto_ivc)
         from openmdao.core.component import Component
+        snap['executed'] = {}
         for comp in model.system_iter(recurse=True, typ=Component):
+            snap['executed'][comp.pathname] = int(comp.iter_count)
             di = getattr(comp, '_discrete_inputs', None)
             do = getattr(comp, '_discrete_outputs', None)
             if di:
